@@ -154,7 +154,7 @@ func dedupLoop(configArgs map[string]string, w *fsnotify.Watcher, completedChann
 	}
 }
 
-// Returns the directories to watch after parsing all package imports, or nil on error
+// Returns the directories to watch after parsing all package imports, or nil if the package could not be loaded
 func generateInWatchMode(configArgs map[string]string) []string {
 	defer func() {
 		if err := recover(); err != nil {
@@ -176,14 +176,18 @@ func generateInWatchMode(configArgs map[string]string) []string {
 			log.Warn().Msg(warning)
 		}
 		WriteSuccessfulSummary(packageInfo)
-
-		var dirsToWatch []string
-		for _, ref := range packageInfo.GetAllReferencedPackages() {
-			dirsToWatch = append(dirsToWatch, ref.PackageDir())
-		}
-		return dirsToWatch
 	}
-	return nil
+
+	// The referenced packages are watched even if the generation failed: the error may
+	// be in one of them, and fixing it has to trigger a regeneration.
+	if packageInfo == nil {
+		return nil
+	}
+	var dirsToWatch []string
+	for _, ref := range packageInfo.GetAllReferencedPackages() {
+		dirsToWatch = append(dirsToWatch, ref.PackageDir())
+	}
+	return dirsToWatch
 }
 
 func WriteSuccessfulSummary(packageInfo *packaging.PackageInfo) {
